@@ -222,6 +222,7 @@ type segH struct {
 
 type Env struct {
 	fieldLists     map[string][]string // ONE caller-side []string per requested doc-value field list, handed to every DocumentValueReader call that asks for that list
+	persistCalls   int
 	keybuf         []byte // ONE caller-side key buffer reused for every Contains / PostingsList key (the API borrows keys)
 	statObjs       map[int]segment.CollectionStats
 	tr             *Trace
@@ -495,8 +496,12 @@ func (e *Env) Do(op *Op) {
 		e.doWFaults(op)
 	case "merge_fsweep":
 		e.doMergeFSweep(op)
+	case "load_fsweep":
+		e.doLoadFSweep(op)
 	case "dit_open":
 		e.doDitOpen(op)
+	case "dit_close":
+		e.doDitClose(op)
 	case "dit_next":
 		e.doDitNext(op)
 	case "persist_fail":
@@ -845,6 +850,77 @@ func (e *Env) doMergeFSweep(op *Op) {
 	e.emit(M{"ev": "merge_fsweep", "file": op.File, "seg": op.Seg, "in": op.In, "reads": reads, "outcomes": outcomes, "res": M{"kind": "ok"}})
 }
 
+// doLoadFSweep loads file op.File again and again through file-backed (on-demand) data while ONE read of the Load
+// call fails: the k-th, for every k (step op.Stop).  A Load that reports success must yield a segment that observes
+// exactly like the one loaded without any fault (full observation, digests compared); outcome <<k, "once", err, same>>.
+func (e *Env) doLoadFSweep(op *Op) {
+	impl := implByName(op.Impl)
+	segMu.RLock()
+	data, ok := e.files[op.File]
+	segMu.RUnlock()
+	if !ok {
+		e.emit(M{"ev": "skip", "op": "load_fsweep"})
+		return
+	}
+	p := filepath.Join(e.workdir, fmt.Sprintf("sweep-%d-%d.ice", os.Getpid(), op.File))
+	if werr := os.WriteFile(p, data, 0o600); werr != nil {
+		panic(werr)
+	}
+	defer os.Remove(p)
+	const far = int64(1) << 40
+	try := func(k int64) (string, string, int) {
+		f, oerr := os.Open(p)
+		if oerr != nil {
+			panic(oerr)
+		}
+		defer f.Close()
+		sd, derr := segment.NewDataFile(f)
+		if derr != nil {
+			panic(derr)
+		}
+		cr := &countingReaderAt{f: f, armed: 2, allow: k}
+		setDataReader(sd, cr)
+		var seg segment.Segment
+		var err error
+		cl := e.call(func() { seg, err = impl.Load(sd) })
+		reads := int(k - atomic.LoadInt64(&cr.allow))
+		atomic.StoreInt32(&cr.armed, 0)
+		switch {
+		case cl == "blocked":
+			return "blocked", "", reads
+		case cl != "":
+			return "panic", "", reads
+		case err != nil:
+			return "err", "", reads
+		}
+		h := &segH{impl: impl, seg: seg, dicts: map[string]segment.Dictionary{}, cr: cr, file: f}
+		d := ""
+		if c := runRecover(func() { d = e.segDigest(h, false) }); c != "" {
+			d = "observation " + c
+		}
+		return "nil", d, reads
+	}
+	es, want, reads := try(far)
+	if es != "nil" {
+		e.emit(M{"ev": "load_fsweep", "file": op.File, "reads": reads, "outcomes": [][]interface{}{{-1, "none", es, false}}, "res": M{"kind": "ok"}})
+		return
+	}
+	step := 1
+	if op.Stop > 1 {
+		step = op.Stop
+	}
+	outcomes := [][]interface{}{}
+	for k := 0; k < reads; k += step {
+		es, got, _ := try(int64(k))
+		outcomes = append(outcomes, []interface{}{k, "once", es, es == "nil" && got == want})
+		e.cov["lsweep_once"]++
+		if es == "nil" {
+			e.cov["lsweep_nil"]++
+		}
+	}
+	e.emit(M{"ev": "load_fsweep", "file": op.File, "reads": reads, "outcomes": outcomes, "res": M{"kind": "ok"}})
+}
+
 // footerOf parses the fixed 44-byte footer itself (independent of ice) and
 // recomputes the CRC-32 (IEEE) of everything before the last four bytes.
 func footerOf(data []byte) M {
@@ -872,7 +948,13 @@ func (e *Env) doPersist(op *Op) {
 	var n int64
 	var err error
 	w, done := wrapDest(&buf, op)
-	class := e.call(func() { n, err = h.seg.WriteTo(w, nil) })
+	// callers pass a close channel they never close as often as none at all
+	var ch chan struct{}
+	e.persistCalls++
+	if e.persistCalls%2 == 0 {
+		ch = make(chan struct{})
+	}
+	class := e.call(func() { n, err = h.seg.WriteTo(w, ch) })
 	res := resKind(class, err)
 	if res["kind"] == "ok" {
 		data := append([]byte{}, done()...)
@@ -1994,6 +2076,20 @@ func (e *Env) doDitOpen(op *Op) {
 	})
 	e.emit(M{"ev": "dit_open", "seg": op.Seg, "field": op.Field, "lo": boundEv(op.Lo), "hi": boundEv(op.Hi), "aut": autEv(op.Aut),
 		"r": 500000 + op.R, "res": resKind(class, err)})
+}
+
+// doDitClose closes a dictionary iterator and drops the handle: what Close() does to the iterator itself is the
+// caller's business no more, what it does to OTHER iterators shows in their later dit_next events
+func (e *Env) doDitClose(op *Op) {
+	it := e.dits[op.R]
+	if it == nil {
+		e.emit(M{"ev": "skip", "op": "dit_close"})
+		return
+	}
+	var err error
+	class := e.call(func() { err = it.Close() })
+	delete(e.dits, op.R)
+	e.emit(M{"ev": "dit_close", "r": 500000 + op.R, "res": resKind(class, err)})
 }
 
 func (e *Env) doDitNext(op *Op) {
